@@ -305,7 +305,7 @@ def schedrun_tie(rep, bdir, gdir, scenario, n, shards, clause_prefixes=None):
     def one(sh):
         js = os.path.join(gdir, "l2_%s_%d.json" % (scenario, sh))
         vf = os.path.join(gdir, "l2_%s_%d.v" % (scenario, sh))
-        exh = ["-maxexh", "450", "-exh", "1"] if rep.tier == "quick" else ["-maxexh", "3000", "-exh", "3"]
+        exh = ["-maxexh", "450", "-exh", "2"] if rep.tier == "quick" else ["-maxexh", "3000", "-exh", "3"]
         rc, out = run([exe, scenario, "gen", "-seed", str(rep.seed), "-tier", rep.tier, "-n", str(n), "-shard", str(sh), "-out", js] + exh, timeout=1800)
         if rc != 0:
             return (js, None, "schedrun gen failed: " + out[-2000:])
